@@ -673,6 +673,20 @@ def check_property(pid, tier='quick', seed=0, witness_hook=None):
             print('VIOLATION property=%s replay=%s' % (pid, rp))
             vio_out.append(obl)
             exit_code = 1
+    # cross-unit links: hand-restated shim text must still equal the text of the wrapper that Verus checks in the
+    # callee's unit (tools/check_links.py; the wrappers themselves are verified with their units)
+    links = {'compared': 0, 'differ': 0, 'unchecked': 0}
+    try:
+        lp = subprocess.run([sys.executable, os.path.join(VERIF, 'tools', 'check_links.py')], stdout=subprocess.PIPE,
+                            stderr=subprocess.STDOUT, timeout=120)
+        mm = re.search(r'(\d+) links compared, (\d+) differ, (\d+) listed as unchecked', lp.stdout.decode('utf-8', 'replace'))
+        if mm:
+            links = {'compared': int(mm.group(1)), 'differ': int(mm.group(2)), 'unchecked': int(mm.group(3))}
+            if links['differ'] > 0:
+                bad = [ln for ln in lp.stdout.decode('utf-8', 'replace').split('\n') if ' DIFFER ' in ln]
+                undecided.append('cross-unit link text drifted from its checked wrapper: %s' % '; '.join(b.split()[0] for b in bad)[:300])
+    except Exception as e:
+        links['error'] = repr(e)
     if exit_code == 0 and undecided:
         for u in undecided:
             print('UNDECIDED property=%s %s' % (pid, u))
@@ -710,6 +724,7 @@ def check_property(pid, tier='quick', seed=0, witness_hook=None):
             'vacuity': {'functions_checked_with_ensures_false': vac_checked,
                         'all_refuted': not any('vacuity alarm' in u for u in undecided)},
             'samples': samples[:12],
+            'cross_unit_links': dict(links, doc='doc/UNCHECKED_LINKS.md lists the links that are not machine-checked'),
             'known_findings_hit': [k.get('what') for k, f in known_hits],
             'known_finding_obligations_excluded_from_counts': known_excluded,
             'violations': vio_out,
